@@ -38,6 +38,8 @@ def stack_case(max_m=200):
             "seed_tex": gen.small_seed,
             "vol": st.lists(gen.volume_spec(), min_size=4, max_size=4),
             "dup": st.booleans(),
+            # every snapshot a vertex of the simplex, written with integers ([[0, 0, 1], ...])
+            "vertex": st.sampled_from([False, False, False, False, False, True]),
             "n_samples": st.one_of(st.none(), st.integers(1, 2000), st.integers(1, 100000)),
             "seed": st.one_of(st.integers(0, 2**32 - 1), st.integers(0, 10)),
         }
@@ -49,6 +51,11 @@ def _build(case):
     rng = np.random.default_rng(case["seed_tex"])
     A = np.stack([gen._random_rotations(rng, M) for _ in range(N)])
     f = np.stack([gen.volumes(case["vol"][i], M) for i in range(N)])
+    if case.get("vertex"):
+        f = np.zeros((N, M), dtype=np.int64)
+        for i in range(N):
+            f[i, (case["seed_tex"] + 7 * i) % M] = 1
+        return A, f
     if case["dup"] and M >= 2:
         # duplicate volumes (ties in the sort)
         f[:, 1] = f[:, 0]
@@ -80,11 +87,11 @@ def check_membership(case):
         # every output pair is an input pair of the same snapshot (orientation AND volume together)
         keys = {}
         for g in range(M):
-            keys.setdefault(A[i, g].tobytes(), set()).add(f[i, g].tobytes())
+            keys.setdefault(A[i, g].tobytes(), set()).add(float(f[i, g]))  # by value: integer-typed volumes come back as floats
         for k in range(min(n_out, 4000)):
             ob = oA[i, k].tobytes()
             require(ob in keys, f"snapshot {i}: resampled orientation {k} is not one of the input grains of that snapshot")
-            require(of[i, k].tobytes() in keys[ob], f"snapshot {i}: resampled volume {of[i, k]!r} does not belong to the resampled orientation")
+            require(float(of[i, k]) in keys[ob], f"snapshot {i}: resampled volume {of[i, k]!r} does not belong to the resampled orientation")
         if n_out > 4000:
             # vectorised membership for the rest via volumes + first matrix entry
             pool = set(zip(A[i, :, 0, 0].tolist(), A[i, :, 1, 2].tolist(), f[i].tolist()))
@@ -97,10 +104,14 @@ def check_membership(case):
     # reproducible for a given seed
     oA2, of2 = sut(S.resample_orientations, A, f, seed=case["seed"], **kw)
     require(oA.tobytes() == oA2.tobytes() and of.tobytes() == of2.tobytes(), "same seed gives different samples")
+    if case.get("vertex"):
+        for i in range(N):
+            g = int(np.argmax(f[i]))
+            require(np.array_equal(oA[i], np.broadcast_to(A[i, g], oA[i].shape)) and np.all(of[i] == 1), f"snapshot {i}: the grain holding all the volume is not the only one drawn")
     nonuniform = bool(np.abs(f - 1.0 / M).max() > 1e-9)
     return {
         "nontrivial": bool((M >= 3 and nonuniform) or has_zero),
-        "labels": [f"N{N}", "default_n" if ns is None else "given_n", "zeros" if has_zero else "nozeros", "dup" if case["dup"] else "nodup"],
+        "labels": [f"N{N}", "default_n" if ns is None else "given_n", "zeros" if has_zero else "nozeros", "dup" if case["dup"] else "nodup"] + (["int_vertex"] if case.get("vertex") else []),
         "residual": 0.0,
     }
 
